@@ -26,7 +26,7 @@ Mechanism keys (narrow; findings/C29-*.md): `send-loop-dies-on-negative-window` 
 escaped + the account saw a negative window), `window-opened-by-settings-not-noticed` (stall on a stream whose most
 recent window increase was a SETTINGS frame), `window-update-does-not-wake-parked-send-loop` (stall that an unrelated
 empty response -- the probe -- is enough to end), `window-update-then-rst-in-one-segment` and
-`request-then-rst-in-one-segment-kills-send-loop` (StreamClosedError + the frames of the delivered segment).  A stall
+`request-then-rst-in-one-segment-kills-send-loop` / `-datareceived-raises` (StreamClosedError + the frames of the delivered segment).  A stall
 that the probe does not end keeps `stalled-with-open-window`, so seeded "does not unblock" mutants are not swallowed.
 
 Guards against false alarms: the final grant leaves slack (a paused producer is only resumed when
@@ -890,15 +890,27 @@ class Session:
             frames = self.datareceived_chunk
             key = "datareceived-raised-" + typ
             rst = [j for j, (n, sid) in enumerate(frames) if n == "RstStreamFrame"]
-            if typ == "StreamClosedError" and any(n == "WindowUpdateFrame" and sid in (0, frames[j][1]) for j in rst for n, sid in frames[:j]):
+            num = self.datareceived_raised.split(":")[1].strip()
+            born_dead = set(sid for n, sid in frames if n == "HeadersFrame") & set(sid for n, sid in frames if n == "RstStreamFrame")
+            if typ == "StreamClosedError" and num.isdigit() and int(num) in born_dead:
+                # narrow key: HEADERS(X) + RST_STREAM(X) + a later HEADERS in one segment.  h2 has closed AND forgotten X
+                # before twisted starts the request; the response's send_headers raises StreamIDTooLowError (logged by
+                # Request.process), the error page's write then raises StreamClosedError out of dataReceived.
+                key = "request-then-rst-in-one-segment-datareceived-raises"
+            elif typ == "StreamClosedError" and any(n == "WindowUpdateFrame" and sid in (0, frames[j][1]) for j in rst for n, sid in frames[:j]):
                 key = "window-update-then-rst-in-one-segment"  # WindowUpdated is handled after h2 has already closed the stream
-            self.violation(key, "H2Connection.dataReceived raised: a real transport logs it and drops the whole connection "
-                           "(every other stream is lost)", {"error": self.datareceived_raised, "frames_in_segment": frames})
-            if key == "window-update-then-rst-in-one-segment":
+            what = "H2Connection.dataReceived raised: a real transport logs it and drops the whole connection (every other stream is lost)"
+            if key == "request-then-rst-in-one-segment-datareceived-raises":
+                what = ("a request cancelled in the same segment and followed by another request (HEADERS X, RST_STREAM X, HEADERS Y) is "
+                        "still started although h2 has already forgotten stream X: its response raises StreamIDTooLowError/"
+                        "StreamClosedError out of dataReceived and a real transport drops the whole connection")
+            self.violation(key, what, {"error": self.datareceived_raised, "frames_in_segment": frames})
+            if key != "datareceived-raised-" + typ:
                 # the StreamReset event of that segment was never handled: later uses of the half-forgotten stream are consequences
                 gone = set(sid for n, sid in frames if n == "RstStreamFrame")
                 errors = [e for e in errors if not (e.startswith("StreamClosedError:") and e.split(":")[1].strip().isdigit()
                                                     and int(e.split(":")[1]) in gone)]
+                errors = [e for e in errors if not (e.startswith("StreamIDTooLowError") and any(("%d is lower than" % g_) in e for g_ in gone))]
         cancelled = [e for e in errors if e.startswith("StreamClosedError:") and e.split(":")[1].strip().isdigit()
                      and int(e.split(":")[1]) in self.req_and_rst_together]
         if cancelled:
